@@ -321,8 +321,8 @@ func buildDataset(c *fw.Ctx, o dsOpts) *dataset {
 // flush-independence properties depend on: one side in the ingest/flush path, the other in a scan.
 func storageRaceSig(report string) string {
 	has := func(s string) bool { return strings.Contains(report, s) }
-	ingest := has("bytetree.(*node).doUpdate") || has("encoding.Sequence.UpdateValue") || has("(*rowStore).processInserts") || has("expr.(*aggregate).Update") || has("expr.(*aggregate).save")
-	scan := has("(*fileStore).iterate") || has("core.(*flatten).Iterate") || has("encoding.Sequence.ValueAt") || has("bytetree.(*Tree).Walk") || has("encoding.Sequence.Merge") || has("rowMerger") || has("expr.(*aggregate).load")
+	ingest := has("bytetree.(*node).doUpdate") || has("bytetree.(*Tree).Update") || has("encoding.Sequence.UpdateValue") || has("(*rowStore).processInserts") || has("expr.(*aggregate).Update") || has("expr.(*aggregate).save")
+	scan := has("(*fileStore).iterate") || has("(*rowStore).iterate") || has("core.(*flatten).Iterate") || has("encoding.Sequence.ValueAt") || has("bytetree.(*Tree).Walk") || has("bytetree.(*Tree).Copy") || has("encoding.Sequence.Merge") || has("rowMerger") || has("expr.(*aggregate).load")
 	if ingest && scan {
 		return "ingest-vs-scan:" + shortRaceKey(report)
 	}
